@@ -2,16 +2,18 @@
 import json
 import os
 import re
+import shutil
 import subprocess
+import tempfile
 import vlib
 
 LEVEL = 'fault_enumeration'
 LEVEL_TEXT = ('Contract.tla tabulates the public interface (constructors, members, validating functions) with argument sorts, validity of '
               'each special value class and output dependencies, written from the headers; TLC enumerates every entry x argument position x '
               'value class (NaN, +-inf, +-0, denormal, tiny, huge, max, +-90, +-180, +-90+ulp, negative), every byte string up to the depth bound '
-              'over an abstract alphabet for 16 parsers, truncation/byte/field faults at every offset of nearest-neighbour saves and of magnetic / gravity model '
-              'files (metadata and coefficients); each is executed '
-              'on an ASan+UBSan build and TLC validates outcome class, exception type, NaN propagation, untouched outputs; a crash, sanitizer '
+              'over an abstract alphabet for 17 parsers, digit runs of 6..32 digits between pieces of valid strings and DMS component sequences, truncation/byte/field faults at every offset of nearest-neighbour saves and of magnetic / gravity model '
+              'files (metadata and coefficients; NumModels 1, 2 x NumConstants 0, 1; empty coefficient sets); each is executed '
+              'on an ASan+UBSan build and TLC validates outcome class, exception type, NaN propagation, the documented INVALID markers for NaN, untouched outputs (reals, strings, ints, bools; also of the parsers and of a refused NearestNeighbor::Load); a crash, sanitizer '
               'report or time-out is attributed to the vector being executed.')
 DESIGN_REF = 'DESIGN.md section 4, C13'
 LEVEL_NOTE = ('Trusted: TLC, Contract.tla, sanitizers for memory safety/UB on the executions enumerated (absence of UB is observed, not proved). '
@@ -44,27 +46,33 @@ def run(ctx):
     rng = ctx.rng
     valid = ['40d26\'47"N', '-73:58:56.2', '40.4N 73.9W', '33N 444500 3688500', '38SMB4488', 'SU387148', 'ezs42', '006AG39', 'GJPJ3217', '32north',
              '1.5e3', '2020-12-25', 'key = value # c', '1/3', 'inf', 'nan', "1d2'3\"", '1:2:3', '-0', '+180W']
-    parsers = ['dms', 'dmslatlon', 'dmsangle', 'dmsazi', 'geocoords', 'mgrs', 'osgb', 'geohash', 'gars', 'georef', 'zone', 'val', 'valint',
+    parsers = ['dms', 'dmslatlon', 'dmsangle', 'dmsazi', 'geocoords', 'mgrs', 'mgrsdecode', 'osgb', 'geohash', 'gars', 'georef', 'zone', 'val', 'valint',
                'fract', 'date', 'parseline']
     for _ in range(4000 if ctx.quick else 200000):
         s = bytearray(rng.choice(valid).encode())
         for _ in range(rng.randint(0, 3)):
-            op = rng.randint(0, 3)
+            op = rng.randint(0, 4)
             if op == 0 and s:
                 s[rng.randrange(len(s))] = rng.randrange(256)
             elif op == 1:
                 s.insert(rng.randint(0, len(s)), rng.choice(b"0123456789.:'\"dNSEW+- \x00\xe2\x80\xb2"))
             elif op == 2 and s:
                 del s[rng.randrange(len(s))]
-            else:
+            elif op == 3:
                 s += bytes(rng.choice([b'9' * 12, b':', b'e999', b'\xc2\xb0', b' ']))
+            else:
+                # a long digit run anywhere in the string (also at the start)
+                k = rng.randint(0, len(s))
+                s[k:k] = rng.choice([b'9', b'1']) * rng.choice([9, 10, 12, 20])
         rows.append(['str', rng.choice(parsers)] + list(s))
     vin = ctx.path('vectors.txt')
     vlib.write_lines(vin, rows)
     ctx.cov['evaluations'] = len(rows)
     exe = vlib.build_driver('drv_contract', 'san')
     trace = ctx.path('trace.ndjson')
-    tmp = ctx.path('data')
+    # the file-fault vectors rewrite two small files each (about 15000 times): keep them on a memory file system when there is one
+    shm = '/dev/shm' if os.path.isdir('/dev/shm') and os.access('/dev/shm', os.W_OK) else None
+    tmp = tempfile.mkdtemp(prefix='verif-C13-', dir=shm) if shm else ctx.path('data')
     skip, crashes = 0, 0
     open(trace, 'w').close()
     env = dict(os.environ, ASAN_OPTIONS='detect_leaks=0:abort_on_error=0:exitcode=97:allocator_may_return_null=1',
@@ -88,6 +96,8 @@ def run(ctx):
             fout.write(json.dumps({'e': 'crash', 'vector': m[-1][1] if m else '?', 'what': what, 'rc': p.returncode, 'detail': detail}) + '\n')
         skip = last
         crashes += 1
+    if shm:
+        shutil.rmtree(tmp, ignore_errors=True)
     n, rej = ctx.validate('Trace_Contract', 'Trace_Contract', trace, shards=vlib.NCPU, group_key=None)
     ctx.cov['traces_validated_against_impl'] += 1
     ctx.report_rejects(rej, trace)
@@ -100,12 +110,13 @@ def run(ctx):
     return ctx.finish(RULE, TRUSTED)
 
 
-RULE = ('fault enumeration by TLC from Contract.tla: every table entry (120: constructors, members, validating functions, line / circle / '
+RULE = ('fault enumeration by TLC from Contract.tla: every table entry (139: constructors, members, validating functions, line / circle / '
         'polygon / model objects) x argument position x 17 special value classes; every byte string of length <= StrDepth (2 quick, 3 thorough) over a 28-symbol '
-        'abstract alphabet, <= StrDepth + 1 over 12 symbols and <= StrDepth + 2 over 8 symbols for each of 16 parsers; for text and binary nearest-neighbour saves truncation, 5 byte-fault kinds and 7 field-value '
+        'abstract alphabet, <= StrDepth + 1 over 12 symbols and <= StrDepth + 2 over 8 symbols for each of 17 parsers, prefix + run of 6..32 digits + suffix over the pieces of each parser\'s valid strings, '
+        'DMS component sequences with up to 4 separators; for text and binary nearest-neighbour saves truncation, 5 byte-fault kinds and 7 field-value '
         'faults at every offset / field 0..400; for MagneticModel and GravityModel metadata files truncation and 3 byte faults at every offset, '
         'dropped / duplicated keyword lines and 11 value classes for every keyword, for their coefficient files truncation and 4 byte faults at '
-        'every offset and 8 header-word classes at every word; for geoid rasters truncation and 4 byte faults at every offset of header and data, '
+        'every offset and 8 header-word classes at every word (also on a gravity file with an empty correction set), 5 header-pair faults on every coefficient set of 6 fixture kinds; for geoid rasters truncation and 4 byte faults at every offset of header and data, '
         'dropped / duplicated header lines, 11 value classes for every header field and for the dimensions; the unfaulted files as controls; plus seeded mutations of valid strings. '
         'distinct_nontrivial = distinct vectors executed.')
 TRUSTED = ['TLC', 'Contract.tla', 'AddressSanitizer + UndefinedBehaviorSanitizer']
